@@ -714,7 +714,8 @@ def rule_c17(an, res):
                     res.ob('R-CLEAN-LOOP', ok=True)
                     continue
                 clocks = clock_syms(top)
-                loops = [(lp, segs) for lp, segs in top.loops]
+                # an effect-free first pass that only locates the end of the expired prefix is not the removing loop
+                loops = [(lp, segs) for lp, segs in top.loops if any(s.state_effects() or s.loops for s in segs)]
                 ok = True
                 why = None
                 removing = []
